@@ -14,6 +14,7 @@ CONSTANTS
  DevPrefixExact = TRUE
  DevWhitelist = FALSE
  DevSqlAllowFirst = FALSE
+ DevSuperuser = FALSE
 INIT Init
 NEXT Next
 INVARIANTS C23_DenyOverrides
